@@ -15,7 +15,8 @@ type ImageSpec struct {
 	// CS: DeviceGray | DeviceRGB | DeviceCMYK | Indexed (base DeviceRGB, direct
 	// lookup string) | IndexedRef (base colour space given by reference) |
 	// ICCBased (stream with /N) | CalGray | CalRGB | Separation | CSRef (the
-	// whole colour space array is an indirect object)
+	// whole colour space array is an indirect object) | IndexedCSRef (an Indexed
+	// array that is an indirect object and names its base by reference)
 	CS string
 	// Filter: "" | Fl | AHx | A85Fl | DCT (a real baseline JPEG made by image/jpeg)
 	Filter string
@@ -40,17 +41,17 @@ func (s ImageSpec) comps() int {
 // GenImageSpec draws an image description.
 func GenImageSpec(r *rand.Rand) ImageSpec {
 	s := ImageSpec{W: 1 + r.Intn(24), H: 1 + r.Intn(24), BPC: 8}
-	s.CS = []string{"DeviceGray", "DeviceRGB", "DeviceCMYK", "Indexed", "IndexedRef", "ICCBased", "CalGray", "CalRGB", "Separation", "CSRef"}[r.Intn(10)]
+	s.CS = []string{"DeviceGray", "DeviceRGB", "DeviceCMYK", "Indexed", "IndexedRef", "ICCBased", "CalGray", "CalRGB", "Separation", "CSRef", "IndexedCSRef"}[r.Intn(11)]
 	switch s.CS {
 	case "DeviceGray", "CalGray", "Separation", "CSRef":
 		s.BPC = []int{1, 2, 4, 8, 8}[r.Intn(5)]
-	case "Indexed", "IndexedRef":
+	case "Indexed", "IndexedRef", "IndexedCSRef":
 		s.BPC = []int{1, 4, 8}[r.Intn(3)]
 	}
 	s.Filter = []string{"", "Fl", "AHx", "A85Fl", "DCT"}[r.Intn(5)]
 	if s.Filter == "DCT" {
 		s.BPC = 8
-		if s.comps() == 4 || s.CS == "Indexed" || s.CS == "IndexedRef" || s.CS == "Separation" {
+		if s.comps() == 4 || s.CS == "Indexed" || s.CS == "IndexedRef" || s.CS == "IndexedCSRef" || s.CS == "Separation" {
 			s.CS = "DeviceRGB"
 		}
 	}
@@ -132,7 +133,7 @@ func imageObjects(r *rand.Rand, key string, im ImageSpec) []RevObj {
 		switch im.CS {
 		case "DeviceGray", "DeviceRGB", "DeviceCMYK":
 			cs = Name(im.CS)
-		case "Indexed", "IndexedRef":
+		case "Indexed", "IndexedRef", "IndexedCSRef":
 			hival := 1<<uint(im.BPC) - 1
 			if hival > 15 {
 				hival = 3 + r.Intn(60)
@@ -140,12 +141,17 @@ func imageObjects(r *rand.Rand, key string, im ImageSpec) []RevObj {
 			lookup := make([]byte, 3*(hival+1))
 			r.Read(lookup)
 			var base any = Name("DeviceRGB")
-			if im.CS == "IndexedRef" {
+			if im.CS != "Indexed" {
 				bk := key + ":basecs"
 				out = append(out, RevObj{Key: bk, Obj: Arr{Name("CalRGB"), Dict{{"WhitePoint", Arr{0.9505, 1, 1.089}}}}})
 				base = Ref{bk}
 			}
 			cs = Arr{Name("Indexed"), base, hival, Str{B: lookup, Hex: r.Intn(2) == 0}}
+			if im.CS == "IndexedCSRef" {
+				ck := key + ":cs"
+				out = append(out, RevObj{Key: ck, Obj: cs})
+				cs = Ref{ck}
+			}
 		case "ICCBased":
 			pk := key + ":icc"
 			prof := make([]byte, 128)
